@@ -743,18 +743,24 @@ func (p *Parser) parseTransferEncoding() error {
 
 //go:norace
 func (p *Parser) parseContentLength() (err error) {
-	if cl := p.header.Get(contentLengthHeader); cl != "" {
+	vals := p.header[contentLengthHeader]
+	cl := ""
+	if len(vals) > 0 {
+		cl = textproto.TrimString(vals[0])
+		// the field may be repeated only with the same value.
+		for _, v := range vals[1:] {
+			if textproto.TrimString(v) != cl {
+				return fmt.Errorf("multiple Content-Length values %q: %w", vals, ErrInvalidContentLength)
+			}
+		}
+	}
+	if cl != "" {
 		if p.chunked {
 			return ErrUnexpectedContentLength
 		}
-		end := len(cl) - 1
-		for i := end; i >= 0; i-- {
-			if cl[i] != ' ' {
-				if i != end {
-					cl = cl[:i+1]
-				}
-				break
-			}
+		// digits only: ParseInt would take a sign.
+		if cl[0] < '0' || cl[0] > '9' {
+			return fmt.Errorf("%s %q", "bad Content-Length", cl)
 		}
 		l, err := strconv.ParseInt(cl, 10, 63)
 		if err != nil {
